@@ -5,7 +5,7 @@ cd /verif
 names=${@:-$(ls seeded)}
 for n in $names; do
   prop=${n%%_*}
-  out=$(./tools_try_seed.sh /verif/seeded/$n $prop 2>&1)
+  out=$(/verif/devtools/tools_try_seed.sh /verif/seeded/$n $prop 2>&1)
   nv=$(echo "$out" | grep -c '^VIOLATION')
   first=$(echo "$out" | grep -A1 '^VIOLATION' | grep detail | head -1 | cut -c1-200)
   tool=$(echo "$out" | grep -c -E 'TOOL ERROR|patch does not apply|/repo dirty')
